@@ -1657,6 +1657,34 @@ func c08ReadExact(r *Report, rule string) {
 			r.Check(good, rule, fname(f)+"/decrypts-exactly-what-was-read", c.Pos(), "the cipher is run over b[:n] for the count n the connection returned",
 				"Conn.Read runs the RC4 keystream over something other than the n bytes the connection just returned (b[:n]): after a short read the keystream is ahead of the data and every later byte is decrypted wrongly")
 		})
+		// … and on every way out: a read may deliver bytes together with an error (n > 0, err != nil); those bytes
+		// are handed to the caller like any others and have to pass through the cipher first
+		allInstrs(f, func(in ssa.Instruction) {
+			c, ok := in.(*ssa.Call)
+			if !ok || !c.Call.IsInvoke() || c.Call.Method.Name() != "Read" {
+				return
+			}
+			isRet := func(i ssa.Instruction) bool { _, isR := i.(*ssa.Return); return isR }
+			isDec := func(i ssa.Instruction) bool {
+				x, isC := i.(*ssa.Call)
+				return isC && isStdCall(x, "crypto/rc4", "Cipher", "XORKeyStream")
+			}
+			nothingRead := func(cond ssa.Value, pol bool) bool {
+				// n == 0 (n <= 0, !(n > 0), …): nothing to decrypt on this way out
+				op, x, y, okc := cmpFact(Guard{Cond: cond, Pol: pol})
+				if !okc {
+					return false
+				}
+				k, isK := constInt(y)
+				if !isK || !isCount(x) {
+					return false
+				}
+				return (op == token.EQL && k == 0) || (op == token.LEQ && k == 0) || (op == token.LSS && k == 1)
+			}
+			miss, reached := pathsMissing(c, -1, isRet, nil, []edgeReq{{Name: "decrypted", Instr: isDec, Match: nothingRead}})
+			r.Check(len(miss) == 0 || reached == 0, rule, fname(f)+"/decrypts-on-every-way-out", c.Pos(), "every way from the connection's Read to a return runs the cipher over what was read",
+				"Conn.Read can return without running the cipher over the bytes the connection delivered (a return taken when the read also reported an error): a read may deliver its last bytes together with the error, and those reach the caller as ciphertext — whether that happens depends on how the transport splits the stream")
+		})
 	}
 	r.Sentinel(rule+".read-decrypt", n, 1)
 }
